@@ -1,8 +1,71 @@
 import Driver.Util
-open Lean
+import Paroxy.Model.Hints
+open Lean Paroxy Paroxy.Hints
 
 namespace Driver.C12
 
-def handlers : List (String × Handler) := []
+def str (s : Str) : Json := Json.str (String.ofList s)
+
+def errName : Err → String
+  | .valueError => "ValueError"
+  | .typeError => "TypeError"
+  | .indexError => "IndexError"
+
+def exc (e : Err) : Json := Json.mkObj [("exc", Json.str (errName e))]
+
+def schedJson (s : Sched) : Json :=
+  Json.arr (s.map fun p =>
+    Json.arr #[str p.1, Json.arr (p.2.map fun sp => Json.arr #[Json.num sp.1, Json.num sp.2]).toArray]).toArray
+
+def programJson (p : Program) : Json :=
+  Json.mkObj [("source", str p.source), ("addition", schedJson p.addition), ("deletion", schedJson p.deletion)]
+
+def beforeName : Before → String
+  | .none => "" | .plus => "+" | .minus => "-" | .dots => "..."
+
+/-- Apply `f` to every string of the array `k` of the request. -/
+def mapStrs (k : String) (f : Str → Json) : Handler := fun j => do
+  let a ← getArr j k
+  let l ← a.toList.mapM fun x => x.getStr?
+  pure (Json.mkObj [("r", Json.arr (l.map fun s => f s.toList).toArray)])
+
+/-- `c12.get_program`: `⟦get_program⟧` on each source. -/
+def getProgramH : Handler := mapStrs "srcs" fun s =>
+  match getProgram s with
+  | .ok p => programJson p
+  | .error e => exc e
+
+def centrifugateH : Handler := mapStrs "srcs" fun s =>
+  match centrifugate s with
+  | .ok c => Json.mkObj [("r", str c)]
+  | .error e => exc e
+
+def collectH : Handler := mapStrs "srcs" fun s =>
+  match collectHints s with
+  | .ok (a, d) => Json.mkObj [("addition", schedJson a), ("deletion", schedJson d)]
+  | .error e => exc e
+
+def removeHintsH : Handler := mapStrs "srcs" fun s => str (removeHints s)
+
+def matchLabelH : Handler := mapStrs "toks" fun s =>
+  match matchLabel s with
+  | some (b, l, a) => Json.arr #[Json.str (beforeName b), str l, Json.bool a]
+  | none => Json.null
+
+def isolatedH : Handler := mapStrs "lines" fun s =>
+  match isolatedRest s with
+  | some r => str r
+  | none => Json.null
+
+/-- `line.partition("# paroxython: ")` then `.split()`: `null` when the separator is absent. -/
+def hintTokensH : Handler := mapStrs "lines" fun s =>
+  match partitionAt m14 s with
+  | some p => Json.arr #[str p.1, Json.arr ((splitWs p.2).map str).toArray]
+  | none => Json.null
+
+def handlers : List (String × Handler) :=
+  [("c12.get_program", getProgramH), ("c12.centrifugate", centrifugateH), ("c12.collect", collectH),
+   ("c12.remove_hints", removeHintsH), ("c12.match_label", matchLabelH), ("c12.isolated", isolatedH),
+   ("c12.hint_tokens", hintTokensH)]
 
 end Driver.C12
